@@ -52,6 +52,11 @@ def plan(tier):
     p.append((S.replay_of(S.T2(), "all passed, shared=install+customize", shared=S.VM1_CHAIN[:2]), 1, 1))
     p.append((S.replay_of(S.T2(), "all passed, own(net1)=chain", own={"net1": S.VM1_CHAIN}), 1, 1))
     p.append((S.replay_of(S.T2(), "setup failed before, pools empty", status_of=lambda n: "FAIL" if "customize" in n else "PASS"), 1, 1))
+    # residue of a run killed at any event boundary: the pools such a run leaves are the initial pools of a fresh run
+    for r_scn in S.crash_residues(S.T2(), deviations=not q, limit=12 if q else 60):
+        p.append((r_scn, 0 if q else 1, 0.3))
+    for r_scn in S.crash_residues(S.T3(), deviations=False, limit=8 if q else 20):
+        p.append((r_scn, 0 if q else 1, 0.3))
     p.append((S.G1(), 0 if q else 1, 3))
     p.append((S.G2(), 0 if q else 1, 3))
     return p
